@@ -18,7 +18,7 @@ Directive grammar (one per line, leading blanks allowed):
   //@closure N (params) -> (b: bool) ensures EXPR     @BODY = the closure's own body text
   //@before "anchor"     ghost text inserted before the line holding the anchor
   //@after "anchor"      ghost text inserted after the statement holding the anchor
-  //@atend               ghost text inserted before the final expression... (not supported)
+  //@atstart             ghost text inserted right after the opening brace of the body
   //@replace "old" => "new" :: reason      function-specific rewrite (logged as F)
   //@end
 
@@ -367,6 +367,10 @@ class Unit:
                     ent = dict(where=kw, anchor=mm.group(1).replace('\\"', '"'), nth=int(mm.group(2) or 0), lines=[])
                     spec['hints'].append(ent)
                     cur = ent['lines']
+                elif kw == 'atstart':
+                    ent = dict(where='start', anchor=None, nth=0, lines=[])
+                    spec['hints'].append(ent)
+                    cur = ent['lines']
                 elif kw == 'chain':
                     mm = re.match(r'"((?:[^"\\]|\\.)*)"\s*(\w+)?\s*(mut)?', rest)
                     spec['chains'].append((mm.group(1).replace('\\"', '"'), mm.group(2) or 'c', bool(mm.group(3))))
@@ -427,6 +431,8 @@ class Unit:
             text = R.r3_hasher(text, log)
         if 'R5' in rules:
             text = R.r5_unreachable(text, log)
+        if 'R10' in rules:
+            text = R.r10_byte_strings(text, log)
         if 'R1' in rules:
             text = R.r1_erase_guards(text, log, 'selfmut' in flags)
             text = R.r1_erase_ctor(text, log)
@@ -648,6 +654,10 @@ class Unit:
             edits.append((c['start'], c['body_end'], new, None))
         # hints
         for h in spec['hints']:
+            if h['where'] == 'start':
+                # ghost text placed right after the opening brace of the body (cannot be lost)
+                edits.append((1, 1, '\n' + '\n'.join(h['lines']), None))
+                continue
             occ = [mm.start() for mm in re.finditer(re.escape(h['anchor']), body) if sn.mask[mm.start()] == CODE]
             if h['nth']:
                 if len(occ) < h['nth']:
